@@ -28,6 +28,7 @@ func registerC18() {
 		MinNontrivial: 300,
 		Families: []lib.Family{
 			{Name: "streams", N: func(t string) uint64 { return tierN(t, 60000, 1000000) }, Run: c18Case},
+			{Name: "long", N: func(t string) uint64 { return tierN(t, 2, 8) }, Run: c18Long},
 		},
 	})
 }
@@ -298,4 +299,62 @@ func c18Compare(c *lib.Ctx, p *ref.Plan, f *fit.File, input []byte) bool {
 	}
 	c.Sample("stream", 2, map[string]interface{}{"records": len(p.Records), "expansions": expansions, "file_type": ex.Content.FileType})
 	return ok
+}
+
+// c18Long: however long the recording, every record (lap) with a valid source gets its
+// destinations: 140 000+ records with altitude and speed, 70 000 laps with avg/max speed.
+func c18Long(c *lib.Ctx, idx uint64) {
+	rng := lib.NewRand("C18.long", idx)
+	arch := byte(idx % 2)
+	nrec := 140000 + int(idx)*23000 + rng.Intn(5000)
+	nlap := 70000 + rng.Intn(3000)
+	put := func(v uint64, n int) []byte {
+		b := make([]byte, n)
+		ref.Put(b, v, n, arch)
+		return b
+	}
+	plan := &ref.Plan{HeaderSize: 14, Proto: 0x20, ProfVer: 2115}
+	plan.Records = append(plan.Records,
+		ref.Record{IsDef: true, Local: 0, Global: 0, Fields: []ref.FieldDef{{Num: 0, Size: 1, Base: 0}}},
+		ref.Record{Local: 0, Data: [][]byte{{4}}},
+		ref.Record{IsDef: true, Local: 1, Arch: arch, Global: 20, Fields: []ref.FieldDef{{Num: 253, Size: 4, Base: 0x86}, {Num: 2, Size: 2, Base: 0x84}, {Num: 6, Size: 2, Base: 0x84}}},
+		ref.Record{IsDef: true, Local: 2, Arch: arch, Global: 19, Fields: []ref.FieldDef{{Num: 254, Size: 2, Base: 0x84}, {Num: 13, Size: 2, Base: 0x84}, {Num: 14, Size: 2, Base: 0x84}}})
+	for i := 0; i < nrec; i++ {
+		plan.Records = append(plan.Records, ref.Record{Local: 1, Data: [][]byte{put(uint64(0x30000000+i), 4), put(uint64(i%60000), 2), put(uint64((i*7)%60000), 2)}})
+		if i < nlap {
+			plan.Records = append(plan.Records, ref.Record{Local: 2, Data: [][]byte{put(uint64(i%65000), 2), put(uint64(i%50000+1), 2), put(uint64(i%50000+2), 2)}})
+		}
+	}
+	b := plan.Bytes()
+	c.SetInflight(b[:4096])
+	f, derr, o := lib.GuardedDecode(b)
+	c.Eval()
+	if o.Panicked || o.Hang || derr != nil {
+		c.Violation(b[:4096], "Decode failed on a well-formed recording of %d records and %d laps: %v %s", nrec, nlap, derr, o.Panic)
+		lib.ShadowUnknown()
+		return
+	}
+	lib.TrackFile(f)
+	a, err := f.Activity()
+	if err != nil || a == nil || len(a.Records) != nrec || len(a.Laps) != nlap {
+		c.Violation(b[:4096], "a recording of %d records and %d laps decodes to %d records and %d laps", nrec, nlap, len(a.Records), len(a.Laps))
+		return
+	}
+	for i, r := range a.Records {
+		wantAlt, wantSpd := uint32(i%60000), uint32((i*7)%60000)
+		if uint32(r.Altitude) != wantAlt || uint32(r.Speed) != wantSpd || r.EnhancedAltitude != wantAlt || r.EnhancedSpeed != wantSpd {
+			c.Violation(b[:4096], "record %d of %d: altitude %d speed %d on the wire; decoded altitude %d speed %d, enhanced_altitude %d enhanced_speed %d (the enhanced fields must hold the 16-bit values)", i, nrec, wantAlt, wantSpd, r.Altitude, r.Speed, r.EnhancedAltitude, r.EnhancedSpeed)
+			return
+		}
+	}
+	for i, l := range a.Laps {
+		wa, wm := uint32(i%50000+1), uint32(i%50000+2)
+		if uint32(l.AvgSpeed) != wa || uint32(l.MaxSpeed) != wm || l.EnhancedAvgSpeed != wa || l.EnhancedMaxSpeed != wm {
+			c.Violation(b[:4096], "lap %d of %d: avg_speed %d max_speed %d on the wire; decoded enhanced_avg_speed %d enhanced_max_speed %d", i, nlap, wa, wm, l.EnhancedAvgSpeed, l.EnhancedMaxSpeed)
+			return
+		}
+	}
+	c.Count("records_in_long_recordings_compared", int64(nrec))
+	c.Count("laps_in_long_recordings_compared", int64(nlap))
+	c.Nontrivial(b[:4096], []byte{byte(idx)})
 }
